@@ -64,6 +64,8 @@ def to_z3(x):
         if x == int(x) and abs(x) < 1e15:
             return z3.RealVal(int(x))
         return z3.RealVal(repr(x))
+    if isinstance(x, str):
+        return z3.StringVal(x)
     raise Outside(f"cannot lift {type(x).__name__} to z3")
 
 
@@ -432,8 +434,8 @@ def leaves_of(v):
 def sig_of(v):
     if v is None:
         return ("None",)
-    if isinstance(v, str):
-        return ("str", v)
+    if isinstance(v, str) or (is_sym(v) and v.sort() == z3.StringSort()):
+        return ("str",)
     if isinstance(v, (bool, int, float)) or is_sym(v):
         return ("scalar", str(sort_of(v)))
     if isinstance(v, tuple):
@@ -470,10 +472,8 @@ def merge(c, a, b):
         return a
     if a is None and b is None:
         return None
-    if isinstance(a, str) and isinstance(b, str):
-        if a == b:
-            return a
-        raise Outside("merge of different strings")
+    if isinstance(a, str) and isinstance(b, str) and a == b:
+        return a
     sa, sb = sig_of(a), sig_of(b)
     if sa != sb:
         # int/bool/real coercions between scalars
@@ -489,9 +489,13 @@ def merge(c, a, b):
         elif x is None and y is None:
             out.append(None)
         elif isinstance(x, str) or isinstance(y, str):
-            if x != y:
-                raise Outside("merge of different strings")
-            out.append(x)
+            if isinstance(x, str) and isinstance(y, str) and x == y:
+                out.append(x)
+            else:
+                # different strings (e.g. two token constants): a symbolic string
+                zx = z3.StringVal(x) if isinstance(x, str) else x
+                zy = z3.StringVal(y) if isinstance(y, str) else y
+                out.append(z3.If(c, zx, zy))
         elif is_sym(x) and is_sym(y) and x.eq(y):
             out.append(x)
         else:
